@@ -266,6 +266,19 @@ func report(p *Program, prop, tier string, seed int, reps []*FuncReport, evidenc
 	for _, l := range violLines {
 		fmt.Println(l)
 	}
+	// a contract on a function of the repository that is used at a call site but never verified itself would be a silent assumption
+	for _, k := range p.Contracts.SortedKeys() {
+		c := p.Contracts.Funcs[k]
+		if !c.Used || c.Trusted || len(c.Props) > 0 {
+			continue
+		}
+		if fn := p.FuncByKey[c.Key]; fn != nil && len(fn.Blocks) > 0 && p.InRepo(fn) {
+			path := filepath.Join(rdir, safeFile("untagged:"+c.ShortKey)+".json")
+			writeJSON(path, map[string]interface{}{"obligation": "contract-target:untagged " + c.ShortKey, "verifier_output": "the contract of " + c.Key + " is relied upon at a call site but carries no property tag, so it is never verified", "contract": c.Where})
+			fmt.Printf("VIOLATION property=%s replay=%s no-failing-input-found\n", prop, path)
+			violations++
+		}
+	}
 	if len(reps) == 0 {
 		fmt.Printf("VIOLATION property=%s replay=%s no-failing-input-found\n", prop, filepath.Join(rdir, "no-contracts.json"))
 		writeJSON(filepath.Join(rdir, "no-contracts.json"), map[string]interface{}{"obligation": "contract-target", "verifier_output": "no function under contract carries this property"})
